@@ -416,7 +416,10 @@ def check_clones(R, J, items):
     for (L, f) in sorted(items, key=lambda it: fsize(it[1])):
         R.evaluations += 1
         raw = (R.evaluations % 2 == 0) and f[0] not in ('true', 'false', 'ap')
-        obs = impl_clone(L, f, raw=raw)
+        try:
+            obs = impl_clone(L, f, raw=raw)
+        except Exception as e:  # noqa  (an observer that raises is an observation: on a correct library none of the steps can fail)
+            obs = {'clone': ['the clone / edit protocol raised', '%s: %s' % (type(e).__name__, ' '.join(str(e).split())[:160])]}
         exp = clone_expected(L, f)
         if obs != exp:
             diff = [k for k in exp if obs.get(k) != exp[k]]
